@@ -6,6 +6,7 @@
 package main
 
 import (
+	"encoding/base64"
 	"encoding/json"
 	"fmt"
 	"strings"
@@ -339,6 +340,38 @@ func genC02(tier string, rng *Rng) {
 			if len(lines) > 2 {
 				runC02("gfx-broken", append(append([]string{}, lines[:1]...), lines[2:]...))
 				runC02("gfx-interleaved", append(append(append([]string{}, lines[:1]...), "HWC#1=4", "junk"), lines[1:]...))
+			}
+		}
+	}
+	// several transfers in ONE call: advanced transfers of 1, 2, 3, 5 parts mixed with simple
+	// three-line transfers (which always end at part 2), in both orders, same / other target
+	advanced := func(parts int, id uint32, ty int) []string {
+		g := &rwp.HWCGfx{ImageType: rwp.HWCGfx_ImageTypeE(ty), W: 48, H: 24, ImageData: rng.Bytes(170*(parts-1) + 1 + rng.Intn(169))}
+		if rng.Bool() {
+			g.XYoffset, g.X, g.Y = true, uint32(rng.Intn(3)), uint32(rng.Intn(3))
+		}
+		return rpl.InboundMessagesToRawPanelASCIIstrings(one(stMsg(&rwp.HWCState{HWCIDs: []uint32{id}, HWCGfx: g})))
+	}
+	simple := func(id uint32, ty int) []string {
+		kw := []string{"HWCg", "HWCgRGB", "HWCgGray"}[ty]
+		var ls []string
+		for k, n := range []int{86, 86, 84} {
+			ls = append(ls, fmt.Sprintf("%s#%d=%d:%s", kw, id, k, base64.StdEncoding.EncodeToString(rng.Bytes(n))))
+		}
+		return ls
+	}
+	for _, parts := range []int{1, 2, 3, 4, 5, 7} {
+		for ty := 0; ty < 3; ty++ {
+			for _, sameID := range []bool{true, false} {
+				id2 := uint32(6)
+				if !sameID {
+					id2 = 9
+				}
+				a, sm := advanced(parts, 6, ty), simple(id2, ty)
+				runC02("gfx-advanced-then-simple", append(append([]string{}, a...), sm...))
+				runC02("gfx-simple-then-advanced", append(append([]string{}, sm...), a...))
+				runC02("gfx-adv-simple-adv", append(append(append([]string{}, a...), sm...), advanced(parts%3+1, id2, (ty+1)%3)...))
+				runC02("gfx-simple-simple", append(append(append([]string{"HWC#1=4"}, simple(6, ty)...), "ping"), simple(id2, ty)...))
 			}
 		}
 	}
